@@ -415,6 +415,28 @@ def run(tier: str) -> Run:
                 ok, detail = match_polygons([points(s_) for s_ in fr.attrs['subframes']], want, val, True)
                 ok = ok and isinstance(fr.attrs['distance'].term, Rat) and fr.attrs['distance'].term.eq(dq.term)
             r4.check(ok, f'__getitem__ {label}', loc(gfi), detail, key='getitem')
+    # any sequence of chop calls: chopping in two calls is chopping in one
+    if 'near-first' in seqs:
+        w, out, c1, c2, stage1, stage2 = seqs['near-first']
+        val = w.val()
+        src_seq = None
+        w2 = World(repo)
+        kind, seq2 = w2.call(pfi2, [w2.scalar('tmin', SEC, 0), w2.scalar('tmax', SEC, 4), w2.scalar('wmin', ANG, 1, True), w2.scalar('wmax', ANG, 3, True)])
+        c1b = w2.chopper('C1', w2.scalar('dc1', M, 3), (4, 9), (7, 12))
+        c2b = w2.chopper('C2', w2.scalar('dc2', M, 6), (10,), (30,))
+        k1, step1 = w2.call(sfi, [[c1b]], bound=seq2)
+        k2, step2 = w2.call(sfi, [[c2b]], bound=step1) if k1 == 'return' and isinstance(step1, SObj) else ('raise', None)
+        ok, detail = False, {'outcomes': (k1, k2)}
+        if k2 == 'return' and isinstance(step2, SObj) and step2.attrs.get('frames'):
+            val2 = w2.val()
+            got_final = [clip.numeric(points(s_), val2) for s_ in step2.attrs['frames'][-1].attrs['subframes']]
+            want_final = finals.get('near-first')
+            same = want_final is not None and len(got_final) == len(want_final) and all(
+                any(clip.same_polygon_numeric(g, h) for h in want_final) for g in got_final)
+            ok = same and len(step2.attrs['frames']) == 3
+            detail = {'frames': len(step2.attrs['frames']), 'final_polygons_two_calls': len(got_final),
+                      'final_polygons_one_call': len(want_final) if want_final is not None else None, 'equal': same}
+        r4.check(ok, 'chop([a]).chop([b]) == chop([a, b])', loc(sfi), detail, key='stepwise')
     # two choppers at the same distance: the frame looked up behind them has passed both
     for order in ('leading-edge first', 'trailing-edge first'):
         w = World(repo)
